@@ -77,5 +77,7 @@ pub fn shape_with_plan(
         }
     }
 
+    buffer.leave();
+
     GlyphBuffer(buffer)
 }
